@@ -130,7 +130,7 @@ def query_event(ev, s, o, h, op, shape, arg, g, method, dtype_variant):
         e["post"] = sd.alpha_obj(s, sd.inv_map(g))
         # the same call on a freshly built equal object: the result may not depend on what was
         # asked of this object before
-        fresh = sd.build(o, g)
+        fresh = sd.build(o, g, cls=type(s))
         rf_ = call(fresh, o, op, keep.copy() if isinstance(keep, np.ndarray) and keep.ndim else arr, g, method)
         e["fresh_out"] = proj_out(op, rf_, projt)
         a1 = np.asarray(rf_.matrix if op == "cm" else rf_, dtype=float)
@@ -168,6 +168,40 @@ def query_event(ev, s, o, h, op, shape, arg, g, method, dtype_variant):
     return e
 
 
+def smooth_subclass():
+    """a user subclass that overrides the six primary rates (add-one smoothing); the aliases must follow"""
+    from score_analysis import Scores
+
+    class Smooth(Scores):
+        def _sm(self, num, den):
+            return (np.asarray(num) + 1.0) / (np.asarray(den) + 2.0)
+
+        def tpr(self, threshold):
+            c = self.cm(threshold)
+            return self._sm(c.tp(), c.p())
+
+        def fnr(self, threshold):
+            c = self.cm(threshold)
+            return self._sm(c.fn(), c.p())
+
+        def tnr(self, threshold):
+            c = self.cm(threshold)
+            return self._sm(c.tn(), c.n())
+
+        def fpr(self, threshold):
+            c = self.cm(threshold)
+            return self._sm(c.fp(), c.n())
+
+        def topr(self, threshold):
+            c = self.cm(threshold)
+            return self._sm(c.top(), c.pop())
+
+        def tonr(self, threshold):
+            c = self.cm(threshold)
+            return self._sm(c.ton(), c.pop())
+    return Smooth
+
+
 def steps_of(beh):
     """[(kind, h, op, shape, arg)] read from the `last` variable of every state"""
     out = []
@@ -192,7 +226,7 @@ def replay_behaviour(o0, steps_in, cid, ids, seed):
     evs = []
     ev = sd.make_ev(evs, ids, cid, g)
     objs = [dict(o0)]
-    real = [sd.new_event(ev, objs[0], g, h=1)]
+    real = [sd.new_event(ev, objs[0], g, h=1, **({"cls": smooth_subclass()} if cid % 4 == 3 else {}))]
     if real[0] is None:
         return evs, []
     steps, again = [], []
